@@ -192,6 +192,13 @@ const WITNESS: &[&str] = &[
     "include(\"@INC@/mcyc_main.mmm\")\nfn dsp() {\n  mcyc_entry(1.0)\n}\n",
     "include(\"@INC@/chain_0.mmm\")\nfn dsp() {\n  chain_f0(1.0) + chain_f47(1.0)\n}\n",
     "include(\"@INC@/dia_top.mmm\")\nfn dsp() {\n  dia_top(1.0)\n}\n",
+    // record / tuple mismatches at several positions of one annotated let (a unification failure without any label), and
+    // alias cycles declared inside a module (mangled names), noted by a seeding sub-agent
+    "fn g(p:{a:float}, q:{a:float, b:float}){ let x: ({a:float, b:float}, {a:float}) = (p, q)\n 0.0 }\nfn dsp(){ 0.0 }",
+    "fn g(p:(float, float), q:float){ let x: (float, (float, float)) = (p, q)\n 0.0 }\nfn dsp(){ 0.0 }",
+    "mod m { type alias A = (B, float)\n type alias B = A\n pub fn f(x:A){ 0.0 } }\nfn dsp(){ 0.0 }",
+    "mod m { pub type alias A = B\n pub type alias B = C\n pub type alias C = A\n pub fn f(x:A){ 0.0 } }\nfn dsp(){ m::f(1.0) }",
+    "mod m { mod n { pub type alias A = A } pub fn f(x:n::A){ 0.0 } }\nfn dsp(){ 0.0 }",
 ];
 /// Application patterns: `fn f(h, x, g) { s1 s2 s3 }` with every sequence of 1..3 statements `a(b)`, a, b in
 /// {h, x, g}; a second form binds a lambda that applies its parameter. Most are ill-typed in some way (self
